@@ -4,6 +4,8 @@
 -/
 import PygModel.Align
 import PygProofs.Lemmas.AlignLemmas
+import PygProofs.Lemmas.AlignAsOf
+import PygProofs.Lemmas.AlignTree
 import PygProofs.Lemmas.FillIndep
 
 namespace Pyg.Props.C03
@@ -41,12 +43,12 @@ theorem reindex_index (f : Frame) (idx : List Int) (m : Option Dir) :
   refine ⟨reindexFrame_idx f idx m, ?_, ?_⟩
   · cases m with
     | none => simp [reindexFrame, gatherOpt, Frame.names, List.map_map, Function.comp_def]
-    | some d => cases d <;> simp [reindexFrame, gatherOpt, Frame.names, Frame.gather, List.map_map, Function.comp_def]
+    | some d => simp [reindexFrame, Frame.names, List.map_map, Function.comp_def]
   · intro c hc
     rw [reindexFrame_idx]
     cases m with
     | none => simp only [reindexFrame, gatherOpt, List.mem_map] at hc; obtain ⟨c', _, rfl⟩ := hc; simp
-    | some d => cases d <;> simp only [reindexFrame, gatherOpt, List.mem_map] at hc <;> obtain ⟨c', _, rfl⟩ := hc <;> simp
+    | some d => simp only [reindexFrame, List.mem_map] at hc; obtain ⟨c', _, rfl⟩ := hc; simp [asofCol]
 
 /-- no fill method: every column is looked up label by label -/
 theorem reindex_values (f : Frame) (idx : List Int) :
@@ -74,25 +76,92 @@ theorem reindex_keep (ix : List Int) (c : Col) (hs : SortedL ix) (i : Nat) (t : 
 theorem reindex_missing (ix : List Int) (c : Col) (t : Int) (h : t ∉ ix) : valueAt ix c t = Option.none := by
   unfold valueAt; rw [(posOf_none ix t).mpr h]; rfl
 
-/-- ffill: rows that are entirely NaN are dropped first (`nonaFrame`, characterised by `nona_source`), then every
-requested label takes the row at the last remaining label at or before it (`asof_position`) -/
-theorem reindex_ffill (f : Frame) (idx : List Int) :
-    (reindexFrame f idx (some .ffill)).cols =
-      (nonaFrame f).cols.map fun c => (c.1, idx.map (asOfValue (nonaFrame f).idx c.2)) := by
-  simp [reindexFrame, gatherOpt, asOfValue, nonaFrame, List.map_map, Function.comp_def]
+/-- ffill (an as-of join, column by column): on a strictly increasing index every requested label `t` takes, in
+every column, `lastObs` = the cell at the right-most position whose label is `≤ t` and whose cell is not NaN
+(`last_observation` says so by positions); NaN when the column has no such observation.  `lastObs` is an independent
+reference (one scan over labels and cells, no NaN removal, no positions); the model removes the NaN cells of the
+column first (`obs`) and then looks up the as-of position (`asof_position`). -/
+theorem reindex_ffill (f : Frame) (idx : List Int) (hs : f.Sorted) :
+    (reindexFrame f idx (some .ffill)).cols = f.cols.map fun c => (c.1, idx.map (lastObs f.idx c.2)) := by
+  simp only [reindexFrame, asofCol_eq]
+  apply List.map_congr_left
+  intro c _
+  congr 1
+  apply List.map_congr_left
+  intro t _
+  exact asofAt_ffill f.idx c.2 t hs
 
+/-- bfill: the cell at the left-most position whose label is `≥ t` and whose cell is not NaN (`next_observation`) -/
 theorem reindex_bfill (f : Frame) (idx : List Int) :
-    (reindexFrame f idx (some .bfill)).cols =
-      (nonaFrame f).cols.map fun c => (c.1, idx.map (nextValue (nonaFrame f).idx c.2)) := by
-  simp [reindexFrame, gatherOpt, nextValue, nonaFrame, List.map_map, Function.comp_def]
+    (reindexFrame f idx (some .bfill)).cols = f.cols.map fun c => (c.1, idx.map (firstObs f.idx c.2)) := by
+  simp only [reindexFrame, asofCol_eq]
+  apply List.map_congr_left
+  intro c _
+  congr 1
+  apply List.map_congr_left
+  intro t _
+  exact asofAt_bfill f.idx c.2 t
 
-/-- the source of the as-of join: exactly the rows of the input holding a non-NaN cell (for a Series: its
-non-NaN observations), still sorted -/
-theorem nona_source (f : Frame) (hs : f.Sorted) :
-    (nonaFrame f).rows = f.rows.filter (fun r => r.2.any (·.isSome)) ∧ (nonaFrame f).Sorted ∧ (nonaFrame f).Rect :=
-  ⟨Frame.rows_gather_valid f,
-   sorted_gather f.idx hs _ (filter_range_pairwise _ _) (filter_range_bound _ _),
-   Frame.rect_gather _ _⟩
+/-- what `lastObs` is, by positions: `v` sits at a position `i` with label `≤ t`, and no later position with a label
+`≤ t` holds a value -/
+theorem last_observation (ix : List Int) (c : Col) (t v : Int) :
+    lastObs ix c t = some v ↔
+      ∃ (i : Nat) (s : Int), ix[i]? = some s ∧ s ≤ t ∧ c[i]? = some (some v) ∧
+        ∀ (j : Nat) (s' w : Int), i < j → ix[j]? = some s' → s' ≤ t → c[j]? ≠ some (some w) :=
+  lastObs_iff ix c t v
+
+theorem next_observation (ix : List Int) (c : Col) (t v : Int) :
+    firstObs ix c t = some v ↔
+      ∃ (i : Nat) (s : Int), ix[i]? = some s ∧ t ≤ s ∧ c[i]? = some (some v) ∧
+        ∀ (j : Nat) (s' w : Int), j < i → ix[j]? = some s' → t ≤ s' → c[j]? ≠ some (some w) :=
+  firstObs_iff ix c t v
+
+/-- the composed statement for ONE cell of the result: column number `j`, requested label `idx[k] = t`.  The cell is
+the value `v` iff `v` is the column's last non-NaN observation at or before `t`; it is NaN iff there is none. -/
+theorem reindex_ffill_cell (f : Frame) (idx : List Int) (hs : f.Sorted) (j k : Nat) (c : String × Col) (t : Int)
+    (hc : f.cols[j]? = some c) (hk : idx[k]? = some t) :
+    ∃ r, (reindexFrame f idx (some .ffill)).cols[j]? = some (c.1, r) ∧ r.length = idx.length ∧
+      (∀ v, r[k]? = some (some v) ↔
+        ∃ (i : Nat) (s : Int), f.idx[i]? = some s ∧ s ≤ t ∧ c.2[i]? = some (some v) ∧
+          ∀ (j' : Nat) (s' w : Int), i < j' → f.idx[j']? = some s' → s' ≤ t → c.2[j']? ≠ some (some w)) ∧
+      (r[k]? = some Option.none ↔ lastObs f.idx c.2 t = Option.none) := by
+  refine ⟨idx.map (lastObs f.idx c.2), ?_, by simp, ?_, ?_⟩
+  · rw [reindex_ffill f idx hs]; simp [hc]
+  · intro v; rw [← lastObs_iff]; simp [hk]
+  · simp [hk]
+
+theorem reindex_bfill_cell (f : Frame) (idx : List Int) (j k : Nat) (c : String × Col) (t : Int)
+    (hc : f.cols[j]? = some c) (hk : idx[k]? = some t) :
+    ∃ r, (reindexFrame f idx (some .bfill)).cols[j]? = some (c.1, r) ∧ r.length = idx.length ∧
+      (∀ v, r[k]? = some (some v) ↔
+        ∃ (i : Nat) (s : Int), f.idx[i]? = some s ∧ t ≤ s ∧ c.2[i]? = some (some v) ∧
+          ∀ (j' : Nat) (s' w : Int), j' < i → f.idx[j']? = some s' → t ≤ s' → c.2[j']? ≠ some (some w)) ∧
+      (r[k]? = some Option.none ↔ firstObs f.idx c.2 t = Option.none) := by
+  refine ⟨idx.map (firstObs f.idx c.2), ?_, by simp, ?_, ?_⟩
+  · rw [reindex_bfill f idx]; simp [hc]
+  · intro v; rw [← firstObs_iff]; simp [hk]
+  · simp [hk]
+
+/-- with a fill method, too, a non-NaN cell at a timestamp the series has is kept (it is its own last and next
+observation) -/
+theorem reindex_fill_keeps (ix : List Int) (c : Col) (hs : SortedL ix) (i : Nat) (t v : Int)
+    (hi : ix[i]? = some t) (hv : c[i]? = some (some v)) :
+    lastObs ix c t = some v ∧ firstObs ix c t = some v := by
+  have hp := List.pairwise_iff_getElem.mp hs
+  have hil := getElem?_some_lt hi
+  constructor
+  · refine (lastObs_iff ix c t v).mpr ⟨i, t, hi, Int.le_refl _, hv, ?_⟩
+    intro j s' w hj hjs hle
+    have hjl := getElem?_some_lt hjs
+    have := hp i j hil hjl hj
+    rw [List.getElem?_eq_getElem hil] at hi; rw [List.getElem?_eq_getElem hjl] at hjs
+    simp at hi hjs; omega
+  · refine (firstObs_iff ix c t v).mpr ⟨i, t, hi, Int.le_refl _, hv, ?_⟩
+    intro j s' w hj hjs hle
+    have hjl := getElem?_some_lt hjs
+    have := hp j i hjl hil hj
+    rw [List.getElem?_eq_getElem hil] at hi; rw [List.getElem?_eq_getElem hjl] at hjs
+    simp at hi hjs; omega
 
 /-- as-of position on a sorted index: the LAST label `≤ t`; none iff every label is later than `t` -/
 theorem asof_position (ix : List Int) (hs : SortedL ix) (t : Int) :
@@ -139,6 +208,34 @@ theorem arr_len_inner (n : Nat) (ns : List Nat) :
         · simp [Nat.min_eq_left h']
         · simp [Nat.min_eq_right h']
       · simp [h]
+
+/-- outer join of bare arrays: the common length is the maximum of the lengths -/
+theorem arr_len_outer (n : Nat) (ns : List Nat) :
+    ∃ r, joinLen .outer (n :: ns) = some r ∧ (∀ k ∈ n :: ns, k ≤ r) ∧ r ∈ n :: ns := by
+  refine ⟨_, rfl, ?_, ?_⟩
+  · induction ns generalizing n with
+    | nil => simp
+    | cons x xs ih =>
+      intro k hk
+      simp only [List.foldl_cons]
+      have h1 := ih (max n x)
+      rcases List.mem_cons.mp hk with rfl | hk
+      · have := h1 (max k x) (by simp); omega
+      · rcases List.mem_cons.mp hk with rfl | hk
+        · have := h1 (max n k) (by simp); omega
+        · exact h1 k (by simp [hk])
+  · induction ns generalizing n with
+    | nil => simp
+    | cons x xs ih =>
+      simp only [List.foldl_cons]
+      have := ih (max n x)
+      rcases List.mem_cons.mp this with h | h
+      · rw [h]; rcases Nat.le_total n x with h' | h'
+        · simp [Nat.max_eq_right h']
+        · simp [Nat.max_eq_left h']
+      · simp [h]
+
+theorem arr_len_left (n : Nat) (ns : List Nat) : joinLen .left (n :: ns) = some n := rfl
 
 /-! ### containers: structure kept, non-timeseries passed through, one common index -/
 
@@ -206,6 +303,35 @@ theorem presync_common_index (how : How) (m : Option Dir) (args t' : Tree) (ix :
 
 /-! ### columns -/
 
+/-- the common column set: inner = the names present in EVERY multi-column header (no name twice), outer = present in
+SOME header, left / right = the first / last header -/
+theorem joinCols_inner (c : List String) (cs : List (List String)) (hn : c.Nodup) :
+    ∃ r, joinCols .inner (c :: cs) = some r ∧ r.Nodup ∧ ∀ x, x ∈ r ↔ ∀ h ∈ c :: cs, x ∈ h := by
+  refine ⟨_, rfl, ?_, fun x => by rw [mem_foldl_interS]; simp⟩
+  induction cs generalizing c with
+  | nil => exact hn
+  | cons y ys ih => exact ih _ (nodup_interS c y hn)
+
+theorem joinCols_outer (c : List String) (cs : List (List String)) (hn : ∀ h ∈ c :: cs, h.Nodup) :
+    ∃ r, joinCols .outer (c :: cs) = some r ∧ r.Nodup ∧ ∀ x, x ∈ r ↔ ∃ h ∈ c :: cs, x ∈ h := by
+  refine ⟨_, rfl, ?_, fun x => by rw [mem_foldl_unionS]; simp⟩
+  induction cs generalizing c with
+  | nil => exact hn c (by simp)
+  | cons y ys ih =>
+    refine ih _ ?_
+    intro h hh
+    rcases List.mem_cons.mp hh with rfl | hh
+    · exact nodup_unionS c y (hn c (by simp)) (hn y (by simp))
+    · exact hn h (by simp [hh])
+
+theorem joinCols_left (c : List String) (cs : List (List String)) : joinCols .left (c :: cs) = some c := rfl
+
+theorem joinCols_right (c : List String) (cs : List (List String)) : joinCols .right (c :: cs) = (c :: cs).getLast? := by
+  simp only [joinCols, List.getLastD_eq_getLast?]
+  cases h : (c :: cs).getLast? with
+  | none => simp at h
+  | some r => rfl
+
 /-- a multi-column frame is put onto the common column set: its own columns keep their values, the others are NaN;
 Series and one-column frames are left alone -/
 theorem recolumn_spec (cs : List String) (f : Frame) (hm : isMulti f = true) :
@@ -233,6 +359,324 @@ theorem recolumn_single (cols : Option (List String)) (s : Bool) (f : Frame) (h 
     have hm : isMulti f = false := by rcases h with h | h; cases h; exact h
     cases cols <;> simp [recolumnLeaf, hm]
 
+/-! ### containers, position by position: member `k` of the result is the aligned member `k` of the input -/
+
+/-- `df_sync` works member by member: the result has as many members as the input, and member `k` of the result is
+member `k` of the input reindexed onto the joint index and then (with a column policy) put on the common column set.
+A model that permuted, dropped or blanked members would not satisfy this. -/
+theorem sync_pointwise (how : How) (m : Option Dir) (ch : Option How) (tag : Tag) (kids : List (String × Tree)) (t' : Tree)
+    (h : sync how m ch (.node tag kids) = .ok t') :
+    t'.leaves.length = (Tree.node tag kids).leaves.length ∧
+    ∀ (k : Nat) (l : Leaf), (Tree.node tag kids).leaves[k]? = some l →
+      ∃ l1 l', reindexLeaf (dfIndex how (Tree.node tag kids).flatTop) m l = .ok l1 ∧
+        colPass ch (multiCols (Tree.node tag kids).flatTop) l1 = .ok l' ∧ t'.leaves[k]? = some l' := by
+  simp only [sync] at h
+  split at h
+  · cases h
+  · rename_i t1 h1
+    have p1 := pairs_reindexTree _ m _ _ h1
+    cases ch with
+    | none =>
+      simp at h; subst h
+      refine ⟨p1.length_eq, fun k l hk => ?_⟩
+      obtain ⟨l1, hl1, hr⟩ := p1.get k l hk
+      exact ⟨l1, l1, hr, rfl, hl1⟩
+    | some c =>
+      simp only at h
+      have p2 := pairs_mapM _ _ _ h
+      have p := p1.comp p2
+      refine ⟨p.length_eq, fun k l hk => ?_⟩
+      obtain ⟨l', hl', l1, hr, hc⟩ := p.get k l hk
+      exact ⟨l1, l', hr, hc, hl'⟩
+
+/-- a timeseries member: member `k` of the result is that series / frame reindexed onto the joint index (its values
+are then given by `reindex_values` / `reindex_ffill` / `reindex_bfill`), on the common column set when it has several columns -/
+theorem sync_member (how : How) (m : Option Dir) (ch : Option How) (tag : Tag) (kids : List (String × Tree)) (t' : Tree)
+    (ix : List Int) (hix : dfIndex how (Tree.node tag kids).flatTop = .times ix)
+    (h : sync how m ch (.node tag kids) = .ok t') (k : Nat) (s : Bool) (f : Frame)
+    (hk : (Tree.node tag kids).leaves[k]? = some (.ts s f)) :
+    ∃ l', t'.leaves[k]? = some l' ∧
+      colPass ch (multiCols (Tree.node tag kids).flatTop) (.ts s (reindexFrame f ix m)) = .ok l' := by
+  obtain ⟨_, hp⟩ := sync_pointwise how m ch tag kids t' h
+  obtain ⟨l1, l', h1, h2, h3⟩ := hp k _ hk
+  rw [hix] at h1
+  simp [reindexLeaf] at h1; subst h1
+  exact ⟨l', h3, h2⟩
+
+/-- ... in particular a Series (or any member when no column policy applies) is EXACTLY its reindexed self -/
+theorem sync_member_series (how : How) (m : Option Dir) (ch : Option How) (tag : Tag) (kids : List (String × Tree)) (t' : Tree)
+    (ix : List Int) (hix : dfIndex how (Tree.node tag kids).flatTop = .times ix)
+    (h : sync how m ch (.node tag kids) = .ok t') (k : Nat) (s : Bool) (f : Frame)
+    (hk : (Tree.node tag kids).leaves[k]? = some (.ts s f)) (hs : ch = Option.none ∨ s = true ∨ isMulti f = false) :
+    t'.leaves[k]? = some (.ts s (reindexFrame f ix m)) := by
+  obtain ⟨l', h1, h2⟩ := sync_member how m ch tag kids t' ix hix h k s f hk
+  cases ch with
+  | none => simp [colPass] at h2; rw [h1, h2]
+  | some c =>
+    simp only [colPass] at h2
+    have hm : s = true ∨ isMulti (reindexFrame f ix m) = false := by
+      rcases hs with hs | hs | hs
+      · cases hs
+      · exact Or.inl hs
+      · refine Or.inr ?_
+        have := (reindex_index f ix m).2.1
+        simp only [Frame.names] at this
+        have hl : (reindexFrame f ix m).cols.length = f.cols.length := by
+          have := congrArg List.length this; simpa using this
+        simpa [isMulti, hl] using hs
+    rw [recolumn_single _ s _ hm] at h2
+    cases h2; exact h1
+
+/-- a frame with several columns comes out on the joint index AND on the common column set, each of its own columns
+with the reindexed values, the others NaN -/
+theorem sync_member_frame (how : How) (m : Option Dir) (c : How) (tag : Tag) (kids : List (String × Tree)) (t' : Tree)
+    (ix : List Int) (cs : List String) (hix : dfIndex how (Tree.node tag kids).flatTop = .times ix)
+    (hcs : joinCols c (multiCols (Tree.node tag kids).flatTop) = some cs)
+    (h : sync how m (some c) (.node tag kids) = .ok t') (k : Nat) (f : Frame)
+    (hk : (Tree.node tag kids).leaves[k]? = some (.ts false f)) (hm : isMulti f = true) :
+    ∃ g, t'.leaves[k]? = some (.ts false g) ∧ g.idx = ix ∧ g.names = cs ∧
+      ∀ c ∈ cs, ∀ col, g.cols.find? (·.1 == c) = some col →
+        col.2 = match (reindexFrame f ix m).cols.find? (·.1 == c) with
+                | some fc => fc.2
+                | Option.none => List.replicate ix.length Option.none := by
+  obtain ⟨l', h1, h2⟩ := sync_member how m (some c) tag kids t' ix hix h k false f hk
+  simp only [colPass, hcs] at h2
+  have hm' : isMulti (reindexFrame f ix m) = true := by
+    have := (reindex_index f ix m).2.1
+    simp only [Frame.names] at this
+    have hl : (reindexFrame f ix m).cols.length = f.cols.length := by
+      have := congrArg List.length this; simpa using this
+    simpa [isMulti, hl] using hm
+  obtain ⟨g, hg, gi, gn, gv⟩ := recolumn_spec cs (reindexFrame f ix m) hm'
+  rw [hg] at h2; cases h2
+  refine ⟨g, h1, by rw [gi]; exact (reindex_index f ix m).1, gn, ?_⟩
+  intro c hc col hcol
+  have := gv c hc col hcol
+  rw [(reindex_index f ix m).1] at this
+  exact this
+
+/-- a bare array in an all-array container: member `k` of the result is that array aligned at the end to the joint length -/
+theorem sync_member_arr (how : How) (ch : Option How) (tag : Tag) (kids : List (String × Tree)) (t' : Tree)
+    (n : Nat) (hix : dfIndex how (Tree.node tag kids).flatTop = .len n)
+    (h : sync how Option.none ch (.node tag kids) = .ok t') (k : Nat) (xs : Col)
+    (hk : (Tree.node tag kids).leaves[k]? = some (.arr xs)) :
+    t'.leaves[k]? = some (.arr (alignArr n xs)) := by
+  obtain ⟨_, hp⟩ := sync_pointwise how Option.none ch tag kids t' h
+  obtain ⟨l1, l', h1, h2, h3⟩ := hp k _ hk
+  rw [hix] at h1
+  have : l1 = .arr (alignArr n xs) := by
+    simp [reindexLeaf, fillMethods, fillnaArr] at h1; exact h1.symm
+  subst this
+  cases ch with
+  | none => simp [colPass] at h2; rw [h3, h2]
+  | some c => simp [colPass, recolumnLeaf] at h2; rw [h3, ← h2]
+
+/-- a member that is no timeseries and no array is, at its position, returned as it is -/
+theorem sync_member_other (how : How) (m : Option Dir) (ch : Option How) (tag : Tag) (kids : List (String × Tree)) (t' : Tree)
+    (h : sync how m ch (.node tag kids) = .ok t') (k : Nat) (v : Val)
+    (hk : (Tree.node tag kids).leaves[k]? = some (.other v)) : t'.leaves[k]? = some (.other v) := by
+  obtain ⟨_, hp⟩ := sync_pointwise how m ch tag kids t' h
+  obtain ⟨l1, l', h1, h2, h3⟩ := hp k _ hk
+  have : l1 = .other v := by cases hd : dfIndex how (Tree.node tag kids).flatTop <;> rw [hd] at h1 <;> simp [reindexLeaf] at h1 <;> exact h1.symm
+  subst this
+  cases ch with
+  | none => simp [colPass] at h2; rw [h3, h2]
+  | some c => simp [colPass, recolumnLeaf] at h2; rw [h3, ← h2]
+
+/-- the arguments a `presync`-decorated function receives, position by position -/
+theorem presync_pointwise (how : How) (m : Option Dir) (args t' : Tree) (h : presyncArgs how m args = .ok t') :
+    t'.leaves.length = args.leaves.length ∧
+    ∀ (k : Nat) (l : Leaf), args.leaves[k]? = some l →
+      ∃ l', reindexLeaf (dfIndex how args.flatTop) m l = .ok l' ∧ t'.leaves[k]? = some l' := by
+  have p := pairs_reindexTree _ m _ _ h
+  refine ⟨p.length_eq, fun k l hk => ?_⟩
+  obtain ⟨l', h1, h2⟩ := p.get k l hk
+  exact ⟨l', h2, h1⟩
+
+theorem presync_member (how : How) (m : Option Dir) (args t' : Tree) (ix : List Int)
+    (hix : dfIndex how args.flatTop = .times ix) (h : presyncArgs how m args = .ok t') (k : Nat) (s : Bool) (f : Frame)
+    (hk : args.leaves[k]? = some (.ts s f)) : t'.leaves[k]? = some (.ts s (reindexFrame f ix m)) := by
+  obtain ⟨l', h1, h2⟩ := (presync_pointwise how m args t' h).2 k _ hk
+  rw [hix] at h1; simp [reindexLeaf] at h1; subst h1; exact h2
+
+/-! ### the joint index is taken over EVERY timeseries of the container -/
+
+/-- in a container without tuples (the statement: nested lists / dicts) the members the joint index is computed from
+are ALL members, at any depth, in order -/
+theorem flatTop_covers (tag : Tag) (kids : List (String × Tree)) (h : kidsTupleFree kids = true) :
+    (Tree.node tag kids).flatTop = (Tree.node tag kids).leaves := by
+  simp only [Tree.flatTop, Tree.leaves]; exact flatKids_eq_leaves kids h
+
+/-- inner join over a nested container: after `df_sync` every timeseries anywhere in the result sits on ONE index `r`,
+and `t ∈ r` iff EVERY timeseries anywhere in the input has `t` -/
+theorem sync_index_inner (m : Option Dir) (ch : Option How) (tag : Tag) (kids : List (String × Tree)) (t' : Tree)
+    (hf : kidsTupleFree kids = true)
+    (hsorted : ∀ l ∈ (Tree.node tag kids).leaves, ∀ s f, l = .ts s f → f.Sorted)
+    (hne : ∃ s f, Leaf.ts s f ∈ (Tree.node tag kids).leaves)
+    (h : sync .inner m ch (.node tag kids) = .ok t') :
+    ∃ r, SortedL r ∧ (∀ l ∈ t'.leaves, ∀ s f, l = .ts s f → f.idx = r) ∧
+      ∀ t, t ∈ r ↔ ∀ s f, Leaf.ts s f ∈ (Tree.node tag kids).leaves → t ∈ f.idx := by
+  have hcov := flatTop_covers tag kids hf
+  have hmem : ∀ ix, ix ∈ tsIndexes (Tree.node tag kids).leaves ↔ ∃ s f, Leaf.ts s f ∈ (Tree.node tag kids).leaves ∧ f.idx = ix := by
+    intro ix
+    simp only [tsIndexes, List.mem_filterMap]
+    constructor
+    · rintro ⟨l, hl, e⟩
+      cases l with
+      | ts s f => simp at e; exact ⟨s, f, hl, e⟩
+      | arr _ => simp at e
+      | other _ => simp at e
+    · rintro ⟨s, f, hl, e⟩; exact ⟨_, hl, by simp [e]⟩
+  cases hixs : tsIndexes (Tree.node tag kids).leaves with
+  | nil =>
+    obtain ⟨s, f, hl⟩ := hne
+    have := (hmem f.idx).mpr ⟨s, f, hl, rfl⟩
+    rw [hixs] at this; cases this
+  | cons i0 is =>
+    have hs0 : SortedL i0 := by
+      obtain ⟨s, f, hl, e⟩ := (hmem i0).mp (by rw [hixs]; simp)
+      rw [← e]; exact hsorted _ hl s f rfl
+    obtain ⟨r, hr, hsr, hmr⟩ := index_inner i0 is hs0
+    have hix : dfIndex .inner (Tree.node tag kids).flatTop = .times r := by
+      rw [hcov]; simp only [dfIndex, hixs, hr]
+    refine ⟨r, hsr, sync_common_index .inner m ch tag kids t' r hix h, ?_⟩
+    intro t
+    rw [hmr, ← hixs]
+    constructor
+    · intro hall s f hl; exact hall f.idx ((hmem _).mpr ⟨s, f, hl, rfl⟩)
+    · intro hall j hj
+      obtain ⟨s, f, hl, e⟩ := (hmem j).mp hj
+      rw [← e]; exact hall s f hl
+
+/-- outer join: `t ∈ r` iff SOME timeseries anywhere in the input has `t` -/
+theorem sync_index_outer (m : Option Dir) (ch : Option How) (tag : Tag) (kids : List (String × Tree)) (t' : Tree)
+    (hf : kidsTupleFree kids = true)
+    (hsorted : ∀ l ∈ (Tree.node tag kids).leaves, ∀ s f, l = .ts s f → f.Sorted)
+    (hne : ∃ s f, Leaf.ts s f ∈ (Tree.node tag kids).leaves)
+    (h : sync .outer m ch (.node tag kids) = .ok t') :
+    ∃ r, SortedL r ∧ (∀ l ∈ t'.leaves, ∀ s f, l = .ts s f → f.idx = r) ∧
+      ∀ t, t ∈ r ↔ ∃ s f, Leaf.ts s f ∈ (Tree.node tag kids).leaves ∧ t ∈ f.idx := by
+  have hcov := flatTop_covers tag kids hf
+  have hmem : ∀ ix, ix ∈ tsIndexes (Tree.node tag kids).leaves ↔ ∃ s f, Leaf.ts s f ∈ (Tree.node tag kids).leaves ∧ f.idx = ix := by
+    intro ix
+    simp only [tsIndexes, List.mem_filterMap]
+    constructor
+    · rintro ⟨l, hl, e⟩
+      cases l with
+      | ts s f => simp at e; exact ⟨s, f, hl, e⟩
+      | arr _ => simp at e
+      | other _ => simp at e
+    · rintro ⟨s, f, hl, e⟩; exact ⟨_, hl, by simp [e]⟩
+  cases hixs : tsIndexes (Tree.node tag kids).leaves with
+  | nil =>
+    obtain ⟨s, f, hl⟩ := hne
+    have := (hmem f.idx).mpr ⟨s, f, hl, rfl⟩
+    rw [hixs] at this; cases this
+  | cons i0 is =>
+    have hs0 : SortedL i0 := by
+      obtain ⟨s, f, hl, e⟩ := (hmem i0).mp (by rw [hixs]; simp)
+      rw [← e]; exact hsorted _ hl s f rfl
+    obtain ⟨r, hr, hsr, hmr⟩ := index_outer i0 is hs0
+    have hix : dfIndex .outer (Tree.node tag kids).flatTop = .times r := by
+      rw [hcov]; simp only [dfIndex, hixs, hr]
+    refine ⟨r, hsr, sync_common_index .outer m ch tag kids t' r hix h, ?_⟩
+    intro t
+    rw [hmr, ← hixs]
+    constructor
+    · rintro ⟨j, hj, ht⟩
+      obtain ⟨s, f, hl, e⟩ := (hmem j).mp hj
+      exact ⟨s, f, hl, by rw [e]; exact ht⟩
+    · rintro ⟨s, f, hl, ht⟩; exact ⟨f.idx, (hmem _).mpr ⟨s, f, hl, rfl⟩, ht⟩
+
+/-! ### an explicit index as join policy; keyword arguments of a presync-decorated function -/
+
+/-- with a policy word `syncJ` is `sync`: all theorems above apply -/
+theorem syncJ_how (h : How) (m : Option Dir) (ch : Option How) (t : Tree) : syncJ (.how h) m ch t = sync h m ch t := rfl
+
+/-- `df_sync(dfs, join=<explicit index>)`: as soon as the container holds a timeseries, member `k` of the result is
+member `k` of the input reindexed onto EXACTLY the supplied index (then put on the common column set), the number of
+members is kept and the container structure too -/
+theorem sync_explicit_member (ix : List Int) (m : Option Dir) (ch : Option How) (tag : Tag) (kids : List (String × Tree))
+    (t' : Tree) (hts : tsIndexes (Tree.node tag kids).flatTop ≠ [])
+    (h : syncJ (.explicit ix) m ch (.node tag kids) = .ok t') :
+    t'.skel = (Tree.node tag kids).skel ∧ t'.leaves.length = (Tree.node tag kids).leaves.length ∧
+    ∀ (k : Nat) (s : Bool) (f : Frame), (Tree.node tag kids).leaves[k]? = some (.ts s f) →
+      ∃ l', t'.leaves[k]? = some l' ∧
+        colPass ch (multiCols (Tree.node tag kids).flatTop) (.ts s (reindexFrame f ix m)) = .ok l' := by
+  have hne : (tsIndexes (Tree.node tag kids).flatTop).isEmpty = false := by
+    cases hl : tsIndexes (Tree.node tag kids).flatTop with
+    | nil => exact (hts hl).elim
+    | cons _ _ => rfl
+  have hix : dfIndexJ (.explicit ix) (Tree.node tag kids).flatTop = .ok (.times ix) := by simp [dfIndexJ, hne]
+  simp only [syncJ, hix] at h
+  split at h
+  · cases h
+  · rename_i t1 h1
+    simp only [reindexTree] at h1
+    have p1 := pairs_mapM _ _ _ h1
+    have s1 := skel_mapM _ (reindexLeaf_skel _ m) _ _ h1
+    cases ch with
+    | none =>
+      simp at h; subst h
+      refine ⟨s1, p1.length_eq, fun k s f hk => ?_⟩
+      obtain ⟨l1, hl1, hr⟩ := p1.get k _ hk
+      simp [reindexLeaf] at hr; subst hr
+      exact ⟨_, hl1, rfl⟩
+    | some c =>
+      simp only at h
+      have p2 := pairs_mapM _ _ _ h
+      have p := p1.comp p2
+      refine ⟨by rw [skel_mapM _ (recolumnLeaf_skel _) _ _ h]; exact s1, p.length_eq, fun k s f hk => ?_⟩
+      obtain ⟨l', hl', l1, hr, hc⟩ := p.get k _ hk
+      simp [reindexLeaf] at hr; subst hr
+      exact ⟨l', hl', hc⟩
+
+/-- a `presync`-decorated function called with positional AND keyword arguments: both the tuple of positional arguments
+and the dict of keyword arguments keep their structure, and member `k` of either is that member reindexed onto the ONE
+joint index computed over `list(args) + list(kwargs.values())` -/
+theorem presync_call_member (j : Join) (m : Option Dir) (args kwargs : List (String × Tree)) (a k : Tree)
+    (h : presyncCall j m args kwargs = .ok (a, k)) :
+    ∃ ix, dfIndexJ j (flatKids (args ++ kwargs)) = .ok ix ∧
+      a.skel = (Tree.node .tuple args).skel ∧ k.skel = (Tree.node .dict kwargs).skel ∧
+      (∀ (i : Nat) (l : Leaf), (Tree.node .tuple args).leaves[i]? = some l →
+        ∃ l', reindexLeaf ix m l = .ok l' ∧ a.leaves[i]? = some l') ∧
+      (∀ (i : Nat) (l : Leaf), (Tree.node .dict kwargs).leaves[i]? = some l →
+        ∃ l', reindexLeaf ix m l = .ok l' ∧ k.leaves[i]? = some l') := by
+  simp only [presyncCall] at h
+  split at h
+  · cases h
+  · rename_i ix hix
+    split at h
+    · cases h
+    · rename_i a' ha
+      split at h
+      · cases h
+      · rename_i k' hk
+        cases h
+        have skel_of : ∀ t t1, reindexTree ix m t = .ok t1 → t1.skel = t.skel := by
+          intro t t1 h1
+          cases ix with
+          | none => simp [reindexTree] at h1; subst h1; rfl
+          | times idx => exact skel_mapM _ (reindexLeaf_skel _ m) _ _ h1
+          | len n => exact skel_mapM _ (reindexLeaf_skel _ m) _ _ h1
+        refine ⟨ix, hix, skel_of _ _ ha, skel_of _ _ hk, ?_, ?_⟩
+        · intro i l hl
+          obtain ⟨l', h1, h2⟩ := (pairs_reindexTree ix m _ _ ha).get i l hl
+          exact ⟨l', h2, h1⟩
+        · intro i l hl
+          obtain ⟨l', h1, h2⟩ := (pairs_reindexTree ix m _ _ hk).get i l hl
+          exact ⟨l', h2, h1⟩
+
+/-- the joint index of a call: with a policy word the join of the indices of the timeseries among ALL arguments,
+positional and keyword; with an explicit index that index (as soon as one argument is a timeseries) -/
+theorem presync_call_index (j : Join) (ls : List Leaf) :
+    dfIndexJ j ls = match j with
+      | .how h => .ok (dfIndex h ls)
+      | .explicit ix => if tsIndexes ls = [] then (if arrLens ls = [] then .ok .none else .error .other) else .ok (.times ix) := by
+  cases j with
+  | how h => rfl
+  | explicit ix => simp [dfIndexJ, List.isEmpty_iff]
+
 /-! ### non-vacuity -/
 
 example : joinIndex .inner [[1, 2, 4, 7], [2, 3, 4], [0, 2, 4, 9]] = some [2, 4] := by decide
@@ -244,6 +688,33 @@ example : let f : Frame := { idx := [1, 2, 5], cols := [("", [some 10, Option.no
     (reindexFrame f [0, 1, 2, 3, 5, 9] (some .ffill)).cols = [("", [Option.none, some 10, some 10, some 10, some 30, some 30])] ∧
     (reindexFrame f [0, 1, 2, 3, 5, 9] (some .bfill)).cols = [("", [some 10, some 10, some 30, some 30, some 30, Option.none])] ∧
     (reindexFrame f [0, 1, 2, 3, 5, 9] Option.none).cols = [("", [Option.none, some 10, Option.none, Option.none, some 30, Option.none])] := by
+  decide
+/-- the as-of join is per column: a frame whose rows are only partly NaN (C03-A2: the unrepaired code joined whole rows
+and returned `a = [1, NaN, NaN]`) -/
+example : let f : Frame := { idx := [0, 1], cols := [("a", [some 1, Option.none]), ("b", [Option.none, some 2])] }
+    (reindexFrame f [0, 1, 2] (some .ffill)).cols = [("a", [some 1, some 1, some 1]), ("b", [Option.none, some 2, some 2])] ∧
+    (reindexFrame f [0, 1, 2] (some .bfill)).cols = [("a", [some 1, Option.none, Option.none]), ("b", [some 2, some 2, Option.none])] := by
+  decide
+/-- `sync_member` / `sync_index_inner` on a nested, tuple-free container: the hypotheses hold and the members come out in place -/
+example : let t : Tree := .node .list [("", .leaf (.ts true { idx := [1, 2, 4], cols := [("", [some 1, Option.none, some 3])] })),
+                                       ("", .node .dict [("k", .leaf (.ts true { idx := [2, 3, 4], cols := [("", [some 5, some 6, Option.none])] })),
+                                                         ("j", .leaf (.other (.cell (.int 7))))])]
+    kidsTupleFree (match t with | .node _ ks => ks | _ => []) = true ∧
+    dfIndex .inner t.flatTop = .times [2, 4] ∧
+    (match sync .inner (some .ffill) Option.none t with
+     | .ok t' => t'.leaves.map fun l => match l with | .ts _ f => some f | _ => Option.none
+     | .error _ => []) =
+      [some { idx := [2, 4], cols := [("", [some 1, some 3])] }, some { idx := [2, 4], cols := [("", [some 5, some 6])] }, Option.none] := by
+  decide
+/-- `sync_explicit_member` / `presync_call_member`: an explicit index, a keyword argument -/
+example : let s1 : Frame := { idx := [1, 2, 4], cols := [("", [some 1, Option.none, some 3])] }
+    let s2 : Frame := { idx := [2, 3], cols := [("", [some 5, some 6])] }
+    tsIndexes (Tree.node .list [("", .leaf (.ts true s1))]).flatTop ≠ [] ∧
+    (match presyncCall (.explicit [0, 2, 3]) (some .ffill) [("", .leaf (.ts true s1))] [("k", .leaf (.ts true s2))] with
+     | .ok (a, k) => (a.leaves ++ k.leaves).map fun l => match l with | .ts _ f => some f | _ => Option.none
+     | .error _ => []) =
+      [some { idx := [0, 2, 3], cols := [("", [Option.none, some 1, some 1])] },
+       some { idx := [0, 2, 3], cols := [("", [Option.none, some 5, some 6])] }] := by
   decide
 example : alignArr 2 [some 1, some 2, some 3] = [some 2, some 3] ∧
     alignArr 4 [some 1, some 2] = [Option.none, Option.none, some 1, some 2] ∧ alignArr 0 [some 1] = [] := by decide
